@@ -709,6 +709,9 @@ class Interp:
                     continue
                 out.append((s, UNK))
             return out, raises
+        if isinstance(node, ast.List) and not node.elts and not self.rule.wants_compose:
+            # a fresh empty list: known empty until something is appended (any mutating call on the variable forgets this)
+            return [(st, AV("list", (), truth=False, none=False))], []
         if isinstance(node, ast.JoinedStr) and not self.rule.wants_compose:
             return [(st, AV("unk", truth=None, none=False))], []
         if isinstance(node, ast.Dict) and all(isinstance(k, ast.Constant) for k in node.keys if k is not None) and None not in node.keys:
@@ -779,6 +782,12 @@ class Interp:
                 res = self.rule.call(self, s2, node, recv, pos, kw)
                 if res is None:
                     res = self.default_call(s2, node, recv, pos, kw)
+                if recv is not None and recv.kind == "list" and isinstance(f, ast.Attribute) and isinstance(f.value, ast.Name):
+                    # a method call on a known-empty list may fill it: forget the emptiness (unless the rule re-bound the variable)
+                    k = self.var(f.value.id)
+                    for o in res:
+                        if k in o.st.env and o.st.env[k].kind == "list":
+                            o.st.env[k] = AV("unk", none=False)
                 for o in res:
                     if o.kind == "normal":
                         # a result that carries a symbol is read through the facts already decided about that symbol on this path
@@ -1280,6 +1289,9 @@ class Interp:
                     r = self.rule.for_iter(self, s2, stmt, itv)
                     if r is not None:
                         res += r
+                        continue
+                    if itv.kind == "list" and not itv.val:
+                        res.append((s2.copy(), False))
                         continue
                     s3 = s2.copy()
                     self.assign(s3, stmt.target, UNK)
